@@ -632,3 +632,85 @@ pub fn rec_wrap_steps(ch: &mut Chunker, text: &str, o: &Opts) {
         Err(_) => ch.push_raw(json!({"ev": "w.end", "lines": [], "status": "panic"})),
     }
 }
+
+// ---------------------------------------------------------------------------------------------
+// the Options builder as a little state machine: a sequence of builder calls and the resulting fields
+// ---------------------------------------------------------------------------------------------
+
+fn options_fields(ch: &mut Chunker, o: &Options<'_>) -> Value {
+    let sep = if o.word_separator == WordSeparator::AsciiSpace {
+        "ascii"
+    } else {
+        #[cfg(feature = "full")]
+        {
+            if o.word_separator == WordSeparator::UnicodeBreakProperties {
+                "uax"
+            } else {
+                "custom"
+            }
+        }
+        #[cfg(not(feature = "full"))]
+        {
+            "custom"
+        }
+    };
+    let splitter = if o.word_splitter == WordSplitter::NoHyphenation {
+        "none"
+    } else if o.word_splitter == WordSplitter::HyphenSplitter {
+        "hyphen"
+    } else {
+        "custom"
+    };
+    let (alg, pen) = match &o.wrap_algorithm {
+        WrapAlgorithm::FirstFit => ("ff", Pen::DEFAULT),
+        #[cfg(feature = "full")]
+        WrapAlgorithm::OptimalFit(p) => (
+            "opt",
+            Pen { nline: p.nline_penalty, over: p.overflow_penalty, frac: p.short_last_line_fraction, short: p.short_last_line_penalty, hyph: p.hyphen_penalty },
+        ),
+        _ => ("custom", Pen::DEFAULT),
+    };
+    json!({"width": alpha(o.width).unwrap_or(-1), "ii": ch.cps(o.initial_indent), "si": ch.cps(o.subsequent_indent), "bw": o.break_words,
+           "sep": sep, "splitter": splitter, "alg": alg, "pen": pen.json(), "crlf": o.line_ending == LineEnding::CRLF})
+}
+
+/// ops: [["width", n] | ["ii", cps] | ["si", cps] | ["bw", bool] | ["sep", name] | ["splitter", name] | ["alg", name] | ["crlf", bool]]
+pub fn rec_optseq(ch: &mut Chunker, w0: usize, ops: &[Value]) {
+    let strings: Vec<String> = ops
+        .iter()
+        .map(|op| op[1].as_array().map(|a| a.iter().map(|c| char::from_u32(c.as_u64().unwrap() as u32).unwrap()).collect()).unwrap_or_default())
+        .collect();
+    let mut o = Options::new(w0);
+    for (i, op) in ops.iter().enumerate() {
+        let v = &op[1];
+        o = match op[0].as_str().unwrap_or("") {
+            "width" => o.width(v.as_u64().unwrap_or(0) as usize),
+            "ii" => o.initial_indent(&strings[i]),
+            "si" => o.subsequent_indent(&strings[i]),
+            "bw" => o.break_words(v.as_bool().unwrap_or(true)),
+            "crlf" => o.line_ending(if v.as_bool().unwrap_or(false) { LineEnding::CRLF } else { LineEnding::LF }),
+            "sep" => match v.as_str() {
+                #[cfg(feature = "full")]
+                Some("uax") => o.word_separator(WordSeparator::UnicodeBreakProperties),
+                Some("ascii") => o.word_separator(WordSeparator::AsciiSpace),
+                _ => o,
+            },
+            "splitter" => match v.as_str() {
+                Some("none") => o.word_splitter(WordSplitter::NoHyphenation),
+                Some("hyphen") => o.word_splitter(WordSplitter::HyphenSplitter),
+                _ => o,
+            },
+            "alg" => match v.as_str() {
+                Some("ff") => o.wrap_algorithm(WrapAlgorithm::FirstFit),
+                #[cfg(feature = "full")]
+                Some("opt") => o.wrap_algorithm(WrapAlgorithm::new_optimal_fit()),
+                _ => o,
+            },
+            _ => o,
+        };
+    }
+    let res = options_fields(ch, &o);
+    let by_ref = options_fields(ch, &Options::from(&o));
+    let from_usize = options_fields(ch, &Options::from(w0));
+    ch.push(json!({"ev": "optseq", "w0": alpha(w0).unwrap_or(-1), "full": cfg!(feature = "full"), "ops": ops, "res": res, "by_ref": by_ref, "from_usize": from_usize}));
+}
